@@ -414,6 +414,7 @@ func genGlobCase(t *rapid.T) GlobCase {
 		}
 	}
 	c.ViaChain = rapid.Bool().Draw(t, "via_chain")
+	c.Dir = genDir(t)
 	if rapid.IntRange(0, 2).Draw(t, "with_links") == 0 {
 		c.Links = map[string]string{}
 		nl := rapid.IntRange(1, 3).Draw(t, "nlinks")
